@@ -61,5 +61,7 @@ def run(r):
                      "from_utf8_lossy/split_whitespace are modelled at byte level (lead bytes C2/E1/E2/E3 start a fresh character); tied on byte soups",
                      "the primary cross-reference parser, the lexer and the object parser are NOT modelled: the open channel observes them",
                      "catalog search stages 4e/4f (tail scan, first non-signature object) are not modelled; the model answers 'unknown' there",
-                     "scan_file_finds_all is proved for files of at most one 64 KiB chunk; larger files rely on the chunk-boundary tie"]
-    return standard(r, "c19", ["theories/C19/Proofs.vo"], ["theories/C19/Model.vo"], ["scan", "open"], classify=classify, pre=corpus)
+                     "scan_file_finds_all is proved for every file size and chunk size under long_lines_dead_doc (body lines longer than the 1024-byte carry are dead); c19_long_body_line_refuted is the witness outside it (candidate input class, not yet reproduced on the real code)",
+                     "catalog_found is proved for the modelled stages 4a-4d under cat_hyp (which bounds the file by one 64 KiB read window)"]
+    return standard(r, "c19", ["theories/C19/Proofs.vo", "theories/C19/Chunk.vo", "theories/C19/ChunkLong.vo",
+                                 "theories/C19/ChunkEx.vo", "theories/C19/Catalog.vo"], ["theories/C19/Model.vo"], ["scan", "open"], classify=classify, pre=corpus)
